@@ -491,7 +491,62 @@ func c13Names(ls []cletter) []string {
 	return out
 }
 
+// c13Binary: the same abort discipline through the binary row reader (NewBinaryColumnReader): the stream
+// (two rows + end-of-data trailer) is followed by optional Flush / Sync and then a terminal message.
+func c13Binary(emit explore.Emit) {
+	s := c14Stream{Table: []string{"int4", "text"}, Rows: 2, Nulls: make([]bool, 4), Trailer: true}
+	stream, _, want := s.encode()
+	terminals := []struct {
+		name  string
+		msg   []byte
+		abort bool
+	}{{"CopyDone", pgproto.CopyDone(), false}, {"CopyFail", pgproto.CopyFail("why"), true}, {"Query", pgproto.Query("again"), true}, {"unknown type", pgproto.Msg('z', nil), true}}
+	fillers := [][]byte{nil, pgproto.Flush(), pgproto.Sync(), pgproto.Cat(pgproto.Sync(), pgproto.Flush())}
+	for _, withTrailer := range []bool{true, false} {
+		for fi, fill := range fillers {
+			for _, t := range terminals {
+				withTrailer, fi, fill, t := withTrailer, fi, fill, t
+				emit(explore.Case{Family: "binary-reader", Size: 3,
+					Desc: func() any {
+						return map[string]any{"binary_stream": s.String(), "trailer_sent": withTrailer, "flush_sync_variant": fi, "then": t.name}
+					},
+					Run: func() explore.Result {
+						var res explore.Result
+						res.Key = fmt.Sprint("binary", withTrailer, fi, t.name)
+						data := stream
+						if !withTrailer {
+							data = stream[:len(stream)-2]
+						}
+						o, eng := c14ServeWith(s.Table, [][]byte{data}, pgproto.Cat(fill, t.msg), 0)
+						if eng != "" {
+							res.Engine = eng
+							return res
+						}
+						res.Outcome = "completed"
+						if t.abort {
+							res.Outcome = "aborted-by-client"
+						}
+						res.Trans = []string{fmt.Sprintf("binary/copying|%s|done", t.name)}
+						if !t.abort {
+							if !sameStrings(o.rows, want) || o.final != "eof" || !strings.HasPrefix(o.reply, "CZ") {
+								res.Fail("copy-reply", fmt.Sprintf("binary COPY ended by CopyDone: rows %v, reader %q, reply %q", o.rows, o.final, o.reply))
+							}
+							return res
+						}
+						if !strings.HasPrefix(o.final, "error") {
+							res.Fail("handler-observations", fmt.Sprintf("binary COPY (trailer sent: %v) then %s instead of CopyDone: the row reader ended with %q; an abort must surface as a non-EOF error (rows %v, reply %q)", withTrailer, t.name, o.final, o.rows, o.reply))
+						} else if !strings.HasPrefix(o.reply, "EZ") || strings.Count(strings.SplitN(o.reply, " then:", 2)[0], "E") != 1 {
+							res.Fail("abort-reported-more-than-once", fmt.Sprintf("binary COPY aborted by %s answered %q, expected exactly one ErrorResponse and one ReadyForQuery", t.name, o.reply))
+						}
+						return res
+					}})
+			}
+		}
+	}
+}
+
 func c13Enumerate(tier string, emit explore.Emit) {
+	c13Binary(emit)
 	letters := c13Letters()
 	for _, mode := range []string{"simple", "extended"} {
 		for _, policy := range c13Policies {
